@@ -156,6 +156,7 @@ pub(crate) mod gen {
         PSet { name: "bgv_n2",        scheme: SchemeType::BGV,  n: 2, q: &[97, 113, 193],  t: 17,  expand: true, special: false },
         PSet { name: "ckks_n2",       scheme: SchemeType::CKKS, n: 2, q: &[97, 113, 193],  t: 0,   expand: true, special: false },
         PSet { name: "bfv_n2_4p",     scheme: SchemeType::BFV,  n: 2, q: &[97, 113, 193, 241], t: 17, expand: true, special: false }, // 4 levels
+        PSet { name: "ckks_n2_4p",    scheme: SchemeType::CKKS, n: 2, q: &[97, 113, 193, 241], t: 0, expand: true, special: false }, // data levels {97,113,193} > {97,113} > {97}
         PSet { name: "bfv_n2_bigt",   scheme: SchemeType::BFV,  n: 2, q: &[97, 113],       t: 1009, expand: false, special: true }, // t > q_0 and (Q mod t) >= q_0
         // 60-bit prime with a 40-bit t chosen so that (q mod t) ~ 2^30: (q mod t)*m reaches 2^64 for m < t (carry corner of multiply_add_plain)
         PSet { name: "bfv_n2_q60_t40", scheme: SchemeType::BFV, n: 2, q: &[1152921504606830593], t: 1099511626751, expand: true, special: false },
